@@ -183,3 +183,57 @@ Proof.
   apply (dloop_fuel R HR g ord tmin tmax full i0 (opt_list r0o) Hnd Hadj Hord Hpick fuel O tmin _ e Hs); [|exact H].
   intros _. cbn [init_state d_nS]. unfold order, lenZ. lia.
 Qed.
+
+(* a finite horizon bounds the number of steps: tmax = tmin + n and fuel > n is never exhausted
+   (discrete_SIR with or without test_recovery, basic_discrete_SIS) *)
+Lemma horizon_stops : forall tmin (n k : nat) t, t == tmin + inject_Z (Z.of_nat k) ->
+  xlt t (Some (tmin + inject_Z (Z.of_nat n))) = true -> (k < n)%nat.
+Proof.
+  intros tmin n k t Et H. unfold xlt in H. destruct (Qlt_le_dec t (tmin + inject_Z (Z.of_nat n))) as [L|L]; [|discriminate].
+  rewrite Et in L. apply (proj1 (Qplus_lt_r _ _ _)) in L. rewrite <- Zlt_Qlt in L. lia.
+Qed.
+
+Lemma step_time : forall tmin (k : nat) t, t == tmin + inject_Z (Z.of_nat k) -> t + 1 == tmin + inject_Z (Z.of_nat (S k)).
+Proof. intros tmin k t E. rewrite E, Nat2Z.inj_succ. unfold Z.succ. rewrite inject_Z_plus. ring. Qed.
+
+Lemma dloop_horizon : forall R, rules_safe R -> forall g trec ord tmin (n : nat) full i0 r0 fuel k t s e,
+  t == tmin + inject_Z (Z.of_nat k) -> (n < fuel + k)%nat ->
+  ~ reach_err (dloop g R trec ord tmin (Some (tmin + inject_Z (Z.of_nat n))) full i0 r0 fuel k t s) e.
+Proof.
+  intros R HR g trec ord tmin n full i0 r0. induction fuel as [|f IH]; intros k t s e Et Hf H; cbn [dloop] in H;
+    destruct (nonempty (d_infs s) && xlt t (Some (tmin + inject_Z (Z.of_nat n)))) eqn:Ec.
+  - apply andb_true_iff in Ec. destruct Ec as [_ Ec]. pose proof (horizon_stops tmin n k t Et Ec). lia.
+  - exact (reach_err_ret _ _ _ H).
+  - apply reach_err_bind in H. destruct H as [H|[s' [_ H]]]; [exact (step_no_err R HR _ _ _ _ _ _ _ _ _ H)|].
+    apply (IH (S k) (t + 1) s' e (step_time tmin k t Et)); [lia|exact H].
+  - exact (reach_err_ret _ _ _ H).
+Qed.
+
+Lemma sis_loop_horizon : forall R, rules_safe R -> forall g ord tmin (n : nat) full i0 fuel k t s e,
+  t == tmin + inject_Z (Z.of_nat k) -> (n < fuel + k)%nat ->
+  ~ reach_err (sis_loop g R ord tmin (Some (tmin + inject_Z (Z.of_nat n))) full i0 fuel k t s) e.
+Proof.
+  intros R HR g ord tmin n full i0. induction fuel as [|f IH]; intros k t s e Et Hf H; cbn [sis_loop] in H;
+    destruct (nonempty (s_infs s) && xlt t (Some (tmin + inject_Z (Z.of_nat n)))) eqn:Ec.
+  - apply andb_true_iff in Ec. destruct Ec as [_ Ec]. pose proof (horizon_stops tmin n k t Et Ec). lia.
+  - exact (reach_err_ret _ _ _ H).
+  - apply reach_err_bind in H. destruct H as [H|[s' [_ H]]]; [exact (sis_step_no_err R HR _ _ _ _ _ _ _ _ H)|].
+    apply (IH (S k) (t + 1) s' e (step_time tmin k t Et)); [lia|exact H].
+  - exact (reach_err_ret _ _ _ H).
+Qed.
+
+Theorem dsir_horizon_suffices : forall g R trec ord i0 r0o tmin (n : nat) full fuel ds e tr, rules_safe R -> (n < fuel)%nat ->
+  exec (discrete_SIR g R trec ord (Some i0) r0o None tmin (Some (tmin + inject_Z (Z.of_nat n))) full fuel) ds [] = (Err e, tr) -> e = OutOfDraws.
+Proof.
+  intros g R trec ord i0 r0o tmin n full fuel ds e tr HR Hf H. apply exec_reach_err in H. destruct H as [H|H]; [exact H|exfalso].
+  unfold discrete_SIR in H. cbn [with_initial] in H.
+  eapply (dloop_horizon R HR g trec ord tmin n full i0 (opt_list r0o) fuel O tmin); [|lia|exact H]. cbn. ring.
+Qed.
+
+Theorem dsis_horizon_suffices : forall g R ord i0 tmin (n : nat) full fuel ds e tr, rules_safe R -> (n < fuel)%nat ->
+  exec (basic_discrete_SIS_R g R ord (Some i0) None tmin (Some (tmin + inject_Z (Z.of_nat n))) full fuel) ds [] = (Err e, tr) -> e = OutOfDraws.
+Proof.
+  intros g R ord i0 tmin n full fuel ds e tr HR Hf H. apply exec_reach_err in H. destruct H as [H|H]; [exact H|exfalso].
+  unfold basic_discrete_SIS_R in H. cbn [with_initial] in H.
+  eapply (sis_loop_horizon R HR g ord tmin n full i0 fuel O tmin); [|lia|exact H]. cbn. ring.
+Qed.
